@@ -134,6 +134,11 @@ type Run struct {
 	OrderFailing []string
 	OrderTotal   int
 	OrderRan     bool
+	// C02 bounded relations stand-in
+	RelFailing []string
+	RelTotal   int
+	RelBound   int
+	RelRan     bool
 	SchemaCount int
 }
 
@@ -245,6 +250,18 @@ func verifyRun(opts *RunOpts) (*Run, error) {
 			run.ExtraNotes = append(run.ExtraNotes, "bounded stand-in did not run: "+err.Error())
 		}
 		run.Bounded = br
+	}
+	if opts.Prop == "C02" {
+		k := 3
+		if opts.Tier == "thorough" {
+			k = 4
+		}
+		f, total, err := runBoundedRelations(opts, k)
+		if err != nil {
+			run.ExtraNotes = append(run.ExtraNotes, "bounded relations stand-in did not run: "+err.Error())
+		} else {
+			run.RelFailing, run.RelTotal, run.RelBound, run.RelRan = f, total, k, true
+		}
 	}
 	if opts.Prop == "C05" {
 		f, total, err := runBoundedOrder(opts)
